@@ -139,7 +139,11 @@ def check(ctx):
                     if e.kind == "REG":
                         ok = e.a["how"] == "append" and tr.kind == "API" and tr.name == "publish"
                     elif e.kind == "UNREG":
-                        ok = e.a["how"] == "popleft"
+                        # taken from the head, and only to be transmitted (refill) or failed by the loss of a clean session: anywhere
+                        # else an accepted, held-back message is dropped without ever being sent
+                        el = e.a.get("elem")
+                        sent = any(y.kind == "WRITE" and written_object(y.a["data"])[1] == el for y in tr.events)
+                        ok = e.a["how"] == "popleft" and (sent or tr.kind == "LOSS")
                     else:
                         ok = False
                     ctx.ob("W-FIFO", "%s queue touched only by append (publish) and popleft (%s)" % (cq, tr.label()), ok, where=where(e),
